@@ -18,6 +18,7 @@ def canon(x):
 
 def explore(ad, max_depth=8, max_nodes=200000, audit_rng=None, audit_pairs=25):
     root = ad.make()
+    norm = getattr(ad, "norm_obs", None) or (lambda o: o)
     key = getattr(ad, "key", None) or (lambda w: canon(ad.project(w)))
     nodes = [{"path": [], "depth": 0, "leaf": False}]      # node 0 = root
     edges = [None]                                          # edges[k] for k >= 1
@@ -80,7 +81,7 @@ def explore(ad, max_depth=8, max_nodes=200000, audit_rng=None, audit_pairs=25):
                 for x in path:
                     ad.apply(w2, x)
                 o2, k2 = ad.apply(w2, a), key(w2)
-                if canon(o1) != canon(o2) or k1 != k2:
+                if canon(norm(o1)) != canon(norm(o2)) or k1 != k2:
                     audit_fail = {"kept": nodes[kept]["path"], "merged": path, "act": a, "obs": [o1, o2], "keys": [k1, k2]}
                     break
             if audit_fail:
